@@ -470,6 +470,12 @@ func (w *World) resolveLoadX(v ssa.Value, hopParams bool) ssa.Value {
 					continue
 				}
 			}
+			// a field of an object reached through a pointer, written earlier in this very
+			// function with nothing in between that can write it again
+			if sv := w.forwardField(u); sv != nil {
+				v = sv
+				continue
+			}
 			return v
 		}
 		ss := w.stores[w.locKey(u.X)]
@@ -545,4 +551,50 @@ func (w *World) callMayWriteLocal(c *ssa.Call, ld *ssa.UnOp) bool {
 func isBoolType(t types.Type) bool {
 	b, ok := t.Underlying().(*types.Basic)
 	return ok && b.Kind() == types.Bool
+}
+
+// forwardField: ld = *(&x.f): the value of the store to x.f (same x) that dominates ld when no
+// other write of field f (a store, or a call of a module function that stores f) can execute
+// between that store and ld. Scalars and slices only (the stored value is an SSA value that
+// cannot change).
+func (w *World) forwardField(ld *ssa.UnOp) ssa.Value {
+	fa, ok := ld.X.(*ssa.FieldAddr)
+	if !ok || ld.Block() == nil {
+		return nil
+	}
+	if w.fwdBusy {
+		return nil
+	}
+	w.fwdBusy = true
+	defer func() { w.fwdBusy = false }()
+	fn := ld.Parent()
+	f := fieldOf(fa)
+	writes := w.fieldWritesIn(fn, f)
+	var hit *ssa.Store
+	for _, wr := range writes {
+		st, isSt := wr.(*ssa.Store)
+		if !isSt {
+			continue
+		}
+		fa2, _ := st.Addr.(*ssa.FieldAddr)
+		if fa2 == nil || !(fa2.X == fa.X || w.key(fa2.X) == w.key(fa.X)) {
+			continue
+		}
+		if instrDominates(st, ld) && (hit == nil || instrDominates(hit, st)) {
+			hit = st
+		}
+	}
+	if hit == nil || hit.Val == ssa.Value(ld) {
+		return nil
+	}
+	for _, wr := range writes {
+		if wr == ssa.Instruction(hit) {
+			continue
+		}
+		if instrReaches(hit, wr) && instrReaches(wr, ld) {
+			return nil
+		}
+	}
+	// loops: the store itself must not be re-executed between … it dominates ld, fine
+	return hit.Val
 }
